@@ -207,6 +207,8 @@ struct Node<C: SimCfg> {
     last_too_far: bool,
     watch: BTreeMap<Addr, Watch>,
     was_running: bool,
+    desync_seen: Option<u64>,
+    desync_due_since: Option<u64>,
     frame_at_heal: Option<i32>,
 }
 
@@ -773,6 +775,27 @@ impl<'p, C: SimCfg> World<'p, C> {
                 );
             }
         }
+        if let Ev::Desync { frame, local, remote, addr } = e {
+            *self.probes.extra.entry("desync_events").or_insert(0) += 1;
+            if let Some(pt) = self.plan.perturb.iter().find(|p| p.mode == PerturbMode::Consistent) {
+                let (f0, x) = (pt.frame, pt.node);
+                let involved = i == x || *addr as usize == x;
+                if *frame < f0 || !involved {
+                    self.violate("c09.desync_wrong_frame_or_peer", i, *frame, format!("node {i} reports DesyncDetected{{frame {frame}, addr {addr}}} but only node {x} diverges, from frame {f0} on"));
+                }
+                let mine = self.nodes[i].game.checksums.get(frame).cloned().unwrap_or_default();
+                let theirs = self.nodes.get(*addr as usize).map(|n| n.game.checksums.get(frame).cloned().unwrap_or_default()).unwrap_or_default();
+                if !mine.iter().any(|c| *c as u128 == *local) {
+                    self.violate("c09.desync_checksum", i, *frame, format!("node {i}: DesyncDetected for frame {frame} carries local checksum {local:x}, which this peer never computed for that frame (it saved {mine:x?})"));
+                }
+                if !theirs.iter().any(|c| *c as u128 == *remote) {
+                    self.violate("c09.desync_checksum", i, *frame, format!("node {i}: DesyncDetected for frame {frame} carries remote checksum {remote:x}, which node {addr} never computed for that frame (it saved {theirs:x?})"));
+                }
+                if self.nodes[i].desync_seen.is_none() {
+                    self.nodes[i].desync_seen = Some(self.now);
+                }
+            }
+        }
         if o.event_grammar {
             if let Some(addr) = e.addr() {
                 if matches!(e, Ev::Desync { .. }) {
@@ -1119,6 +1142,24 @@ impl<'p, C: SimCfg> World<'p, C> {
             self.violate("c03.confirmed_decreased", i, g, format!("confirmed_frame() went from {lc} to {conf}"));
         }
         self.nodes[i].last_conf = conf;
+        if let Some(pt) = self.plan.perturb.iter().find(|p| p.mode == PerturbMode::Consistent) {
+            // every peer (the diverging one included) must have been told within a few reporting
+            // intervals of confirmed frames, plus one simulated second for the reports to travel
+            let interval = cfg.desync_interval as i32;
+            if interval > 0 && self.plan.nodes[i].drain {
+                let due = pt.frame + 4 * interval + mp + cfg.input_delay as i32;
+                if conf > due && self.nodes[i].desync_due_since.is_none() {
+                    self.nodes[i].desync_due_since = Some(self.now);
+                }
+                if let (Some(since), None) = (self.nodes[i].desync_due_since, self.nodes[i].desync_seen) {
+                    if self.now > since + 1_000_000 {
+                        let f0 = pt.frame;
+                        let x = pt.node;
+                        self.violate("c09.divergence_missed", i, g, format!("node {x}'s game diverges from frame {f0} on (interval {interval}); node {i} has confirmed frame {conf} and was still not told {} ms after passing frame {due}", (self.now - since) / 1000));
+                    }
+                }
+            }
+        }
         self.probes.max_frame = self.probes.max_frame.max(g);
         let locals = self.nodes[i].locals.clone();
         for adv in &advs {
@@ -1526,6 +1567,8 @@ impl<C: SimCfg> Node<C> {
             last_too_far: false,
             watch: BTreeMap::new(),
             was_running: false,
+            desync_seen: None,
+            desync_due_since: None,
             frame_at_heal: None,
         }
     }
